@@ -3,7 +3,7 @@ Search oracle: a valid program + exactly one injected single-line fault at a kno
 .message/.warning lines: the result's message list = those lines in source order with their own numbers, images unchanged."""
 import random
 
-from . import progcheck as P, proggen, progrun
+from . import common as C, fsrun, progcheck as P, proggen, progrun
 
 PROP = "C15"
 
@@ -38,6 +38,76 @@ def valid_program(rng):
     head = ["main_label: nop", ".macro needsarg", "  ldi r16, @0", ".endm", ".set framevar = 1", ".def framereg = r20", ".equ frameequ = 3"]
     tail = [".cseg", ".org 0x400", "far_label: nop"]
     return head + [l for l in ls if not l.startswith(".org") and "seg" not in l and not l.startswith(".message") and not l.startswith(".warning")] + tail
+
+
+def file_trees(res, vh, exe, rng):
+    """messages and errors in included files: kept in order, errors name the line inside the file that has the fault"""
+    base = fsrun.work_root()
+    cases = []
+    for i in range(40):
+        r = "%s/m%d" % (base, i)
+        msgs = []
+        k = [0]
+
+        def note(lines, where):
+            k[0] += 1
+            kind = rng.choice(["message", "warning"])
+            lines.append('.%s "%s-%d"' % (kind, where, k[0]))
+            msgs.append(("info" if kind == "message" else "warning", "%s-%d" % (where, k[0])))
+        deep, inc, main = [], [], []
+        fault = rng.choice([None, None, "inc", "deep", "main"])
+        want_line = None
+        for _ in range(rng.randrange(0, 3)):
+            note(main, "main")
+        main.append("  nop")
+        main.append('.include "sub/f.inc"')
+        # f.inc
+        for _ in range(rng.randrange(0, 3)):
+            note(inc, "inc")
+        inc.append("  nop")
+        if fault == "inc":
+            inc.append("  ldi r16, undefined_in_inc")
+            # the fault is found in pass 2: every message of the whole program is recorded by then; only the error matters
+        inc.append('.include "g.inc"')
+        for _ in range(rng.randrange(0, 2)):
+            note(deep, "deep")
+        if fault == "deep":
+            deep.append('.error "stop in g"')
+            want_line = len(deep)
+        deep.append("  nop")
+        # after g.inc, back in f.inc
+        n_after = rng.randrange(0, 2)
+        # order: main-before, inc-before, deep, inc-after, main-after
+        tail_inc, tail_main = [], []
+        saved = msgs[:]
+        for _ in range(n_after):
+            note(tail_inc, "inc")
+        for _ in range(rng.randrange(0, 3)):
+            note(tail_main, "main")
+        if fault == "main":
+            tail_main.append("  this is not assembly")
+            want_line = len(main) + len(tail_main)
+        files = {r + "/main.asm": "\n".join(main + tail_main) + "\n", r + "/sub/f.inc": "\n".join(inc + tail_inc) + "\n", r + "/sub/g.inc": "\n".join(deep) + "\n"}
+        cases.append((dict(cwd=r, main="main.asm", paths=[], dirs=[r, r + "/sub"], files=files, missing=None), fault, want_line, list(msgs)))
+    try:
+        rows = fsrun.run_cases(vh, exe, [c[0] for c in cases])
+    finally:
+        fsrun.cleanup()
+    mism = [(c, a, b) for c, a, b in rows if not P.agree(a, b)]
+    res.oblige("correspondence(extracted model): Files.build_file = builder::build_file on %d trees with messages / faults in included files" % len(rows),
+               not mism, "impl=%s model=%s" % (mism[0][1][:100], mism[0][2][:100]) if mism else "")
+    for (case, fault, want_line, msgs), (_, a, _) in zip(cases, rows):
+        o = progrun.parse_obs(a)
+        src = "\n".join("--- %s\n%s" % (p.rsplit("/", 2)[-1], t) for p, t in case["files"].items())
+        if fault is None:
+            got = [(m.split(":")[0], m.split(": ", 1)[1].rsplit(" in line", 1)[0]) for m in o.get("msgs", [])] if o["kind"] == "OK" else None
+            if got != msgs:
+                P.fail(res, "builder::build_file", src, "messages in source order across the files: %s" % msgs, a[:200], "messages-in-includes")
+        else:
+            if o["kind"] != "ERR":
+                P.fail(res, "builder::build_file", src, "a failed build (fault in %s)" % fault, a[:100], "fault-accepted:include")
+            elif want_line is not None and o["line"] != want_line:
+                P.fail(res, "builder::build_file", src, "an error naming line %d of the file that has the fault (%s)" % (want_line, fault), a[:100], "line:include")
 
 
 def run(res):
@@ -85,6 +155,7 @@ def run(res):
             ls.append(l)
         plain = [("" if (x.startswith(".message") or x.startswith(".warning")) else x) for x in ls]
         mcases.append(("\n".join(ls) + "\n", "\n".join(plain) + "\n", expect))
+    file_trees(res, vh, exe, rng)
     obs = P.correspond(res, vh, exe, [c[0] for c in cases] + [m[0] for m in mcases] + [m[1] for m in mcases], "single-fault and message programs")
     dist = {}
     valid_ok = {}
